@@ -209,6 +209,40 @@ let check acc ~klass ~(ops : (string * string) list) ~maxmem ~pool ~use_write ~f
 
 let entry_cost (k, v) = 8 + String.length k + String.length v + 8
 
+(* merge functions whose result is not longer than its operands (the larger / the smaller value by (length, bytes)):
+   sorter output = per key the maximum / minimum of the values added, whatever the chunking and with or without a pool *)
+let minmax_cases acc st =
+  List.iter (fun (kind, maxmem, pool) ->
+    let nkeys = rrange st 2 6 in
+    let ops = List.init (rrange st 10 60) (fun i -> (Printf.sprintf "k%d" (rint st nkeys), String.make (rrange st 0 12) (Char.chr (97 + (i * 7 + rint st 3) mod 26)))) in
+    let case = lazy (JO [ "merge", JS (if kind = 3 then "larger by (length, bytes)" else "smaller by (length, bytes)"); "adds", entries_json ops; "max_memory", JI maxmem; "pool", JI pool ]) in
+    record acc ~key:(json_to_string (Lazy.force case)) ~nontrivial:true ~klass:"minmax_merge" case;
+    let tmp = Filename.concat (Wr.tmpdir ()) "sorter_spill" in
+    (try Unix.mkdir tmp 0o755 with _ -> ());
+    let r = in_child (fun () ->
+        let mc = Mg.c_merge_clos_new kind 0 in
+        let p = if pool > 0 then Wr.c_pool_init pool else 0n in
+        let s = c_sorter_init maxmem tmp mc p in
+        List.iter (fun (k, v) -> ignore (c_sorter_add s k v)) ops;
+        let it = c_sorter_iter s in
+        let out = ref [] in
+        let continue = ref true in
+        if it <> 0n then (while !continue do (match Rd.c_iter_next it with Some e -> out := e :: !out | None -> continue := false) done; Rd.c_iter_destroy it);
+        c_sorter_destroy s; if pool > 0 then Wr.c_pool_destroy p; Mg.c_merge_clos_free mc;
+        "DONE" ^ Marshal.to_string (List.rev !out) []) in
+    let better a b = let c = compare (String.length a, a) (String.length b, b) in if kind = 3 then c >= 0 else c <= 0 in
+    let tbl = Hashtbl.create 16 in
+    List.iter (fun (k, v) -> match Hashtbl.find_opt tbl k with Some b when better b v -> () | _ -> Hashtbl.replace tbl k v) ops;
+    let expect = List.sort compare (Hashtbl.fold (fun k v l -> (k, v) :: l) tbl []) in
+    (match r with
+     | Exited (_, s) when String.length s > 4 && String.sub s 0 4 = "DONE" ->
+       let got : (string * string) list = Marshal.from_string s 4 in
+       if got <> expect then
+         fail acc ~kind:"spec_violation" ~what:((if pool > 0 then "[C06,C13]" else "[C06]") ^ " sorter output is not, per key, the fold of the merge function over the values added (a merge function returning one of its operands)")
+           (JO [ "case", Lazy.force case; "got", entries_json got; "expected", entries_json expect ])
+     | _ -> fail acc ~kind:"spec_violation" ~what:"[C06] the sorter stopped the process" (Lazy.force case)))
+    [ (3, 1, 0); (4, 1, 0); (3, 100000000, 0); (4, 100000000, 0); (3, 200, 0); (4, 200, 0); (3, 150, 2); (4, 150, 3); (4, 1, 1) ]
+
 let run ~tier ~seed ~only acc =
   child_time_limit := 20;
   let idx = ref 0 in
@@ -231,6 +265,7 @@ let run ~tier ~seed ~only acc =
   ] in
   List.iter (fun (klass, ops, maxmem, pool) ->
     List.iter (fun use_write -> if want () then check acc ~klass ~ops ~maxmem ~pool ~use_write ~fail_at:0; incr idx) [ false; true ]) directed;
+  if want () then minmax_cases acc (case_rng ~seed ~engine ~index:!idx); incr idx;
   let n = if tier = "thorough" then 3000 else 150 in
   for _ = 1 to n do
     if want () then begin
